@@ -688,6 +688,20 @@ impl MapView for IntVector {
         for i in 0..self.len() { if view.get(i) != self.get(i) { return Err(format!("IntVectorMapper::get({})", i)); } }
         if !view.iter().eq(self.iter()) { return Err("IntVectorMapper::iter".into()); }
         if !view.iter().rev().eq(self.iter().rev()) { return Err("IntVectorMapper::iter (backwards)".into()); }
+        // Positioned reads through the iterator: nth, skip, step_by, and a mixed front/back history.
+        for k in [0usize, 1, 4, 63, 64] {
+            if view.iter().nth(k) != self.iter().nth(k) { return Err(format!("IntVectorMapper::iter().nth({})", k)); }
+            if view.iter().nth_back(k) != self.iter().nth_back(k) { return Err(format!("IntVectorMapper::iter().nth_back({})", k)); }
+            if !view.iter().skip(k).take(5).eq(self.iter().skip(k).take(5)) { return Err(format!("IntVectorMapper::iter().skip({})", k)); }
+        }
+        if !view.iter().step_by(3).eq(self.iter().step_by(3)) { return Err("IntVectorMapper::iter().step_by(3)".into()); }
+        {
+            let (mut a, mut b) = (view.iter(), self.iter());
+            for step in 0..12usize {
+                let (x, y) = match step % 4 { 0 => (a.next(), b.next()), 1 => (a.next_back(), b.next_back()), 2 => (a.nth(2), b.nth(2)), _ => (a.nth_back(1), b.nth_back(1)) };
+                if x != y || a.len() != b.len() { return Err(format!("IntVectorMapper::iter(): mixed front/back history diverges at step {}", step)); }
+            }
+        }
         if view.is_empty() != self.is_empty() || view.is_mutable() { return Err("IntVectorMapper::is_empty / is_mutable".into()); }
         if view.get_or(self.len(), 77) != 77 { return Err("IntVectorMapper::get_or past the end".into()); }
         let raw: &RawVectorMapper = view.as_ref();
